@@ -124,8 +124,7 @@ Proof.
   unfold url_keep. cbn [url_normalize].
   destruct (memb c (s2b "!#$&*+,/:;=?@[]-._~") || is_alnum c); [reflexivity|].
   destruct (c =? 37); [|reflexivity].
-  destruct t as [|h1 [|h2 t]]; try reflexivity.
-  destruct (is_hex h1 && is_hex h2); reflexivity.
+  destruct t as [|h1 [|h2 t]]; reflexivity.
 Qed.
 
 Lemma url_normalize_keep c t : url_keep c = true -> url_normalize (c :: t) = c :: url_normalize t.
@@ -217,4 +216,439 @@ Proof.
   intros u c Hin. unfold href_attr in Hin. apply html_escape_in in Hin as [[_ Hin]|Hr].
   - apply attr_no_danger in Hin. unfold attr_danger in Hin. b2p. lia.
   - simpl in Hr. lia.
+Qed.
+
+(* ================================================================== *)
+(* 4. fixed scheme and host                                            *)
+(* ================================================================== *)
+Definition pfx_github : bytes := s2b "https://github.com/".
+Definition pfx_file : bytes := s2b "file:///".
+Definition pfx_golang : bytes := s2b "https://golang.org/pkg/".
+Definition pfx_godoc : bytes := s2b "https://godoc.org/".
+Definition pfx_pkgdev : bytes := s2b "https://pkg.go.dev/".
+
+Ltac lit_prefix := apply has_prefix_lit; reflexivity.
+
+Theorem src_url_scheme : forall ver c,
+  src_url ver c = [] \/ has_prefix (src_url ver c) pfx_github = true \/ has_prefix (src_url ver c) pfx_file = true.
+Proof.
+  intros ver c. unfold src_url, get_src_branch_url, pfx_github, pfx_file.
+  repeat match goal with |- context [match ?x with _ => _ end] => destruct x end;
+    cbn [fst];
+    first [ left; reflexivity | right; left; lit_prefix | right; right; lit_prefix ].
+Qed.
+
+Theorem pkg_url_scheme : forall ver c,
+  pkg_url ver c = [] \/ has_prefix (pkg_url ver c) pfx_golang = true \/
+  has_prefix (pkg_url ver c) pfx_godoc = true \/ has_prefix (pkg_url ver c) pfx_pkgdev = true.
+Proof.
+  intros ver c. unfold pkg_url, pfx_golang, pfx_godoc, pfx_pkgdev.
+  destruct (escape_path (after_vendor (CImportPath c))) as [|i0 ip]; [left; reflexivity|]. right.
+  destruct (CLocation c);
+    try destruct (beq (snd (get_src_branch_url ver c)) (s2b "master") || beq (snd (get_src_branch_url ver c)) []);
+    destruct (IsExported (CFunc c));
+    first [ left; lit_prefix | right; left; lit_prefix | right; right; lit_prefix ].
+Qed.
+
+Lemma url_normalize_prefix p x : forallb url_keep p = true -> url_normalize (p ++ x) = p ++ url_normalize x.
+Proof.
+  induction p as [|a p IH]; intros H; [reflexivity|].
+  simpl in H. apply andb_true_iff in H as [Ha Hp]. simpl app. rewrite url_normalize_keep by assumption.
+  now rewrite IH.
+Qed.
+
+Theorem normalize_github : forall x, url_normalize (pfx_github ++ x) = pfx_github ++ url_normalize x.
+Proof. intros x. apply url_normalize_prefix. vm_compute. reflexivity. Qed.
+Theorem normalize_file : forall x, url_normalize (pfx_file ++ x) = pfx_file ++ url_normalize x.
+Proof. intros x. apply url_normalize_prefix. vm_compute. reflexivity. Qed.
+Theorem normalize_golang : forall x, url_normalize (pfx_golang ++ x) = pfx_golang ++ url_normalize x.
+Proof. intros x. apply url_normalize_prefix. vm_compute. reflexivity. Qed.
+Theorem normalize_godoc : forall x, url_normalize (pfx_godoc ++ x) = pfx_godoc ++ url_normalize x.
+Proof. intros x. apply url_normalize_prefix. vm_compute. reflexivity. Qed.
+Theorem normalize_pkgdev : forall x, url_normalize (pfx_pkgdev ++ x) = pfx_pkgdev ++ url_normalize x.
+Proof. intros x. apply url_normalize_prefix. vm_compute. reflexivity. Qed.
+
+Lemma normalize_has_prefix p u :
+  forallb url_keep p = true -> has_prefix u p = true -> has_prefix (url_normalize u) p = true.
+Proof.
+  intros Hk H. apply has_prefix_split in H. rewrite H. rewrite url_normalize_prefix by assumption.
+  apply has_prefix_app.
+Qed.
+
+Theorem href_scheme : forall ver c,
+  let h := url_normalize (src_url ver c) in
+  h = [] \/ has_prefix h pfx_github = true \/ has_prefix h pfx_file = true.
+Proof.
+  intros ver c h. subst h. destruct (src_url_scheme ver c) as [E|[E|E]].
+  - left. now rewrite E.
+  - right. left. apply normalize_has_prefix; [vm_compute; reflexivity|assumption].
+  - right. right. apply normalize_has_prefix; [vm_compute; reflexivity|assumption].
+Qed.
+
+Theorem href_pkg_scheme : forall ver c,
+  let h := url_normalize (pkg_url ver c) in
+  h = [] \/ has_prefix h pfx_golang = true \/ has_prefix h pfx_godoc = true \/ has_prefix h pfx_pkgdev = true.
+Proof.
+  intros ver c h. subst h. destruct (pkg_url_scheme ver c) as [E|[E|[E|E]]].
+  - left. now rewrite E.
+  - right. left. apply normalize_has_prefix; [vm_compute; reflexivity|assumption].
+  - right. right. left. apply normalize_has_prefix; [vm_compute; reflexivity|assumption].
+  - right. right. right. apply normalize_has_prefix; [vm_compute; reflexivity|assumption].
+Qed.
+
+(* the prefix also survives the final html_escape: none of its bytes is special *)
+Lemma html_escape_prefix p x : forallb plain_byte p = true -> html_escape (p ++ x) = p ++ html_escape x.
+Proof.
+  rewrite !html_escape_eq. induction p as [|a p IH]; intros H; [reflexivity|].
+  simpl in H. apply andb_true_iff in H as [Ha Hp]. simpl. rewrite IH by assumption.
+  unfold plain_byte, memb in Ha. simpl in Ha. b2p. unfold esc1.
+  repeat match goal with |- context [if ?a =? ?k then _ else _] =>
+    let E := fresh in destruct (a =? k) eqn:E; [apply N.eqb_eq in E; lia|clear E] end.
+  reflexivity.
+Qed.
+
+(* ================================================================== *)
+(* 5. the class attribute                                              *)
+(* ================================================================== *)
+Definition class_list : list bytes :=
+  [ s2b "FuncMain Exported";
+    s2b "FuncLocationUnknown"; s2b "FuncLocationUnknown Exported";
+    s2b "FuncGoMod"; s2b "FuncGoMod Exported";
+    s2b "FuncGOPATH"; s2b "FuncGOPATH Exported";
+    s2b "FuncGoPkg"; s2b "FuncGoPkg Exported";
+    s2b "FuncStdlib"; s2b "FuncStdlib Exported" ].
+
+Theorem class_safe : forall c, In (func_class c) class_list /\ html_escape (func_class c) = func_class c.
+Proof.
+  intros c. unfold func_class.
+  destruct (IsPkgMain (CFunc c)); [split; [simpl; tauto|reflexivity]|].
+  destruct (CLocation c); destruct (IsExported (CFunc c)); (split; [simpl; tauto|reflexivity]).
+Qed.
+
+(* ================================================================== *)
+(* 3. escape_path and query_escape                                     *)
+(* ================================================================== *)
+Definition path1 (c : N) : bytes := if path_keep c then [c] else pct true c.
+Definition query1 (c : N) : bytes := if query_keep c then [c] else if N.eqb c 32 then [43] else pct true c.
+
+(* the complete output alphabets *)
+Definition path_out (c : N) : bool := path_keep c || (c =? 37).
+Definition query_out (c : N) : bool := query_keep c || (c =? 43) || (c =? 37).
+
+Lemma escape_path_eq s : s <> s2b "*" -> escape_path s = flat_map path1 s.
+Proof.
+  intros H. unfold escape_path. destruct (beq s (s2b "*")) eqn:E; [apply beq_eq in E; contradiction|reflexivity].
+Qed.
+
+Lemma query_escape_eq s : query_escape s = flat_map query1 s.
+Proof. reflexivity. Qed.
+
+Lemma pct_true_in c x : In x (pct true c) -> x = 37 \/ x = hex_digit true (c / 16) \/ x = hex_digit true (c mod 16).
+Proof. unfold pct. simpl. intuition. Qed.
+
+Lemma upper_hex_path_keep c : is_upper_hex c = true -> path_keep c = true.
+Proof. intros H. byte_lia. Qed.
+Lemma upper_hex_query_keep c : is_upper_hex c = true -> query_keep c = true.
+Proof. intros H. byte_lia. Qed.
+Lemma upper_hex_ne37 c : is_upper_hex c = true -> c <> 37.
+Proof. intros H. byte_lia. Qed.
+Lemma path_keep_ne37 c : path_keep c = true -> c <> 37.
+Proof. intros H. byte_lia. Qed.
+Lemma query_keep_ne37 c : query_keep c = true -> c <> 37.
+Proof. intros H. byte_lia. Qed.
+
+Lemma pct_true_upper c : c < 256 ->
+  is_upper_hex (hex_digit true (c / 16)) = true /\ is_upper_hex (hex_digit true (c mod 16)) = true.
+Proof. intros H. split; apply hex_digit_upper; [now apply div16_lt|apply mod16_lt]. Qed.
+
+Theorem escape_path_safe : forall s, bytes_ok s = true -> s <> s2b "*" ->
+  forall c, In c (escape_path s) -> path_out c = true.
+Proof.
+  intros s Hok Hs c Hin. rewrite escape_path_eq in Hin by assumption.
+  apply in_flat_map in Hin as [a [Ha Hc]]. pose proof (bytes_ok_in _ _ Hok Ha) as Hlt.
+  unfold path1 in Hc. unfold path_out. destruct (path_keep a) eqn:Ek.
+  - destruct Hc as [<- |[]]. now rewrite Ek.
+  - destruct (pct_true_upper a Hlt) as [H1 H2].
+    apply pct_true_in in Hc as [-> |[-> | ->]]; [reflexivity| |]; now rewrite upper_hex_path_keep.
+Qed.
+
+Lemma pct_ok_flat_map hx (f : N -> bytes) s :
+  (forall c rest, In c s -> pct_ok hx (f c ++ rest) = pct_ok hx rest) -> pct_ok hx (flat_map f s) = true.
+Proof.
+  induction s as [|a s IH]; intros H; [reflexivity|].
+  simpl flat_map. rewrite H by (left; reflexivity). apply IH. intros c rest Hin. apply H. now right.
+Qed.
+
+Theorem escape_path_pct_ok : forall s, bytes_ok s = true -> s <> s2b "*" -> pct_ok is_upper_hex (escape_path s) = true.
+Proof.
+  intros s Hok Hs. rewrite escape_path_eq by assumption. apply pct_ok_flat_map. intros a rest Ha.
+  pose proof (bytes_ok_in _ _ Hok Ha) as Hlt. unfold path1. destruct (path_keep a) eqn:Ek.
+  - simpl app. apply pct_ok_single. now apply path_keep_ne37.
+  - destruct (pct_true_upper a Hlt) as [H1 H2]. unfold pct. simpl app.
+    apply pct_ok_triple; assumption || now apply upper_hex_ne37.
+Qed.
+
+Theorem escape_path_pct : forall s pre post, bytes_ok s = true -> s <> s2b "*" -> escape_path s = pre ++ 37 :: post ->
+  exists h1 h2 r, post = h1 :: h2 :: r /\ is_upper_hex h1 = true /\ is_upper_hex h2 = true.
+Proof. intros s pre post Hok Hs E. exact (pct_ok_spec is_upper_hex pre _ post (escape_path_pct_ok s Hok Hs) E). Qed.
+
+(* no hypothesis at all (not even s <> "*"): never a delimiter, '#' or '?' *)
+Theorem escape_path_no_delim : forall s c, In c (escape_path s) ->
+  c <> 34 /\ c <> 39 /\ c <> 60 /\ c <> 62 /\ c <> 32 /\ c <> 35 /\ c <> 63 /\ 32 < c.
+Proof.
+  intros s c Hin. unfold escape_path in Hin. destruct (beq s (s2b "*")) eqn:E.
+  - apply beq_eq in E. subst s. simpl in Hin. destruct Hin as [<- |[]]. lia.
+  - apply in_flat_map in Hin as [a [_ Hc]]. fold (path_keep a) in Hc. destruct (path_keep a) eqn:Ek.
+    + destruct Hc as [<- |[]]. byte_lia.
+    + apply pct_true_in in Hc as [-> |[-> | ->]]; [lia| |].
+      * destruct (hex_digit_upper_any (a / 16)) as [H|H]; [byte_lia|lia].
+      * destruct (hex_digit_upper_any (a mod 16)) as [H|H]; [byte_lia|lia].
+Qed.
+
+Theorem query_escape_safe : forall s, bytes_ok s = true -> forall c, In c (query_escape s) -> query_out c = true.
+Proof.
+  intros s Hok c Hin. rewrite query_escape_eq in Hin.
+  apply in_flat_map in Hin as [a [Ha Hc]]. pose proof (bytes_ok_in _ _ Hok Ha) as Hlt.
+  unfold query1 in Hc. unfold query_out. destruct (query_keep a) eqn:Ek.
+  - destruct Hc as [<- |[]]. now rewrite Ek.
+  - destruct (a =? 32).
+    + destruct Hc as [<- |[]]. now rewrite orb_true_r.
+    + destruct (pct_true_upper a Hlt) as [H1 H2].
+      apply pct_true_in in Hc as [-> |[-> | ->]]; [now rewrite orb_true_r| |]; now rewrite upper_hex_query_keep.
+Qed.
+
+Theorem query_escape_pct_ok : forall s, bytes_ok s = true -> pct_ok is_upper_hex (query_escape s) = true.
+Proof.
+  intros s Hok. rewrite query_escape_eq. apply pct_ok_flat_map. intros a rest Ha.
+  pose proof (bytes_ok_in _ _ Hok Ha) as Hlt. unfold query1. destruct (query_keep a) eqn:Ek.
+  - simpl app. apply pct_ok_single. now apply query_keep_ne37.
+  - destruct (a =? 32).
+    + simpl app. apply pct_ok_single. lia.
+    + destruct (pct_true_upper a Hlt) as [H1 H2]. unfold pct. simpl app.
+      apply pct_ok_triple; assumption || now apply upper_hex_ne37.
+Qed.
+
+Theorem query_escape_pct : forall s pre post, bytes_ok s = true -> query_escape s = pre ++ 37 :: post ->
+  exists h1 h2 r, post = h1 :: h2 :: r /\ is_upper_hex h1 = true /\ is_upper_hex h2 = true.
+Proof. intros s pre post Hok E. exact (pct_ok_spec is_upper_hex pre _ post (query_escape_pct_ok s Hok) E). Qed.
+
+Theorem query_escape_no_delim : forall s c, In c (query_escape s) ->
+  c <> 34 /\ c <> 39 /\ c <> 60 /\ c <> 62 /\ c <> 32 /\ c <> 35 /\ c <> 63 /\
+  c <> 47 /\ c <> 58 /\ c <> 64 /\ c <> 38 /\ c <> 61 /\ 32 < c.
+Proof.
+  intros s c Hin. rewrite query_escape_eq in Hin. apply in_flat_map in Hin as [a [_ Hc]].
+  unfold query1 in Hc. destruct (query_keep a) eqn:Ek.
+  - destruct Hc as [<- |[]]. byte_lia.
+  - destruct (a =? 32).
+    + destruct Hc as [<- |[]]. lia.
+    + apply pct_true_in in Hc as [-> |[-> | ->]]; [lia| |].
+      * destruct (hex_digit_upper_any (a / 16)) as [H|H]; [byte_lia|lia].
+      * destruct (hex_digit_upper_any (a mod 16)) as [H|H]; [byte_lia|lia].
+Qed.
+
+(* the hypothesis is needed for the alphabet / %XX statements: 4096 is not a byte *)
+Lemma escape_needs_bytes_ok :
+  query_escape [4096] = [37; 311; 48] /\ escape_path [4096] = [37; 311; 48] /\ query_out 311 = false /\ path_out 311 = false.
+Proof. vm_compute. repeat split. Qed.
+
+(* symbol() is a query_escape output *)
+Theorem symbol_no_delim : forall f c, In c (symbol f) ->
+  c <> 34 /\ c <> 39 /\ c <> 60 /\ c <> 62 /\ c <> 32 /\ c <> 35 /\ c <> 63 /\
+  c <> 47 /\ c <> 58 /\ c <> 64 /\ c <> 38 /\ c <> 61 /\ 32 < c.
+Proof. intros f c. unfold symbol. apply query_escape_no_delim. Qed.
+
+(* ================================================================== *)
+(* 6. the raw URL is NOT safe by itself; the normalised one is         *)
+(* ================================================================== *)
+Definition hostile_call : Call :=
+  mkCall emptyFunc emptyArgs [] 1 [] [] [] (s2b "github.com/u/r""x/f.go") [] GoMod.
+
+(* splitTag's repository name is formatted with %s, unescaped: a double quote of the dump survives in srcURL *)
+Theorem src_url_raw_unsafe_example : forall ver, exists c, In 34 (src_url ver c).
+Proof.
+  intros ver. exists hostile_call.
+  assert (H : existsb (N.eqb 34) (src_url ver hostile_call) = true) by (vm_compute; reflexivity).
+  apply existsb_exists in H as [x [Hin Hx]]. apply N.eqb_eq in Hx. now subst x.
+Qed.
+
+(* ... but nothing dangerous is left once html/template has normalised it *)
+Theorem src_url_href_no_danger : forall ver c x, In x (url_normalize (src_url ver c)) -> attr_danger x = false.
+Proof. intros ver c x. apply attr_no_danger. Qed.
+
+Theorem pkg_url_href_no_danger : forall ver c x, In x (url_normalize (pkg_url ver c)) -> attr_danger x = false.
+Proof. intros ver c x. apply attr_no_danger. Qed.
+
+(* ================================================================== *)
+(* 7. one row of links per frame; every dynamic attribute is safe      *)
+(* ================================================================== *)
+Lemma flat_map_const_length {A B} (f : A -> list B) (k : nat) (l : list A) :
+  (forall x, List.length (f x) = k) -> List.length (flat_map f l) = (k * List.length l)%nat.
+Proof.
+  intros H. induction l as [|x l IH]; simpl; [lia|]. rewrite app_length, H, IH. lia.
+Qed.
+
+Theorem attrs_total : forall ver s,
+  List.length (sig_attrs ver s) =
+  (3 * (match Calls (CreatedBy s) with [] => 0 | _ :: _ => 1 end) + 4 * List.length (Calls (SStack s)))%nat.
+Proof.
+  intros ver s. unfold sig_attrs. rewrite app_length.
+  rewrite (flat_map_const_length (call_attrs ver) 4) by reflexivity.
+  destruct (Calls (CreatedBy s)); reflexivity.
+Qed.
+
+Definition fixed_prefixes : list bytes := [pfx_github; pfx_file; pfx_golang; pfx_godoc; pfx_pkgdev].
+
+(* a link target as it reaches the document: no delimiter, and empty or with a fixed scheme and host *)
+Definition href_ok (a : bytes) : Prop :=
+  (forall x, In x a -> attr_danger x = false) /\
+  (a = [] \/ exists p, In p fixed_prefixes /\ has_prefix a p = true).
+
+Lemma href_ok_src ver c : href_ok (url_normalize (src_url ver c)).
+Proof.
+  split; [apply src_url_href_no_danger|].
+  destruct (href_scheme ver c) as [E|[E|E]]; [now left| |]; right.
+  - exists pfx_github. split; [simpl; tauto|exact E].
+  - exists pfx_file. split; [simpl; tauto|exact E].
+Qed.
+
+Lemma href_ok_pkg ver c : href_ok (url_normalize (pkg_url ver c)).
+Proof.
+  split; [apply pkg_url_href_no_danger|].
+  destruct (href_pkg_scheme ver c) as [E|[E|[E|E]]]; [now left| | |]; right.
+  - exists pfx_golang. split; [simpl; tauto|exact E].
+  - exists pfx_godoc. split; [simpl; tauto|exact E].
+  - exists pfx_pkgdev. split; [simpl; tauto|exact E].
+Qed.
+
+Theorem attrs_safe : forall ver s a, In a (sig_attrs ver s) -> In a class_list \/ href_ok a.
+Proof.
+  intros ver s a Hin. unfold sig_attrs in Hin. apply in_app_or in Hin as [Hin|Hin].
+  - destruct (Calls (CreatedBy s)) as [|c l]; [destruct Hin|].
+    unfold created_attrs in Hin. simpl in Hin. destruct Hin as [<- |[<- |[<- |[]]]].
+    + right. apply href_ok_src.
+    + left. apply class_safe.
+    + right. apply href_ok_pkg.
+  - apply in_flat_map in Hin as [c [_ Hin]].
+    unfold call_attrs in Hin. simpl in Hin. destruct Hin as [<- |[<- |[<- |[<- |[]]]]].
+    + right. apply href_ok_pkg.
+    + right. apply href_ok_src.
+    + left. apply class_safe.
+    + right. apply href_ok_pkg.
+Qed.
+
+(* ================================================================== *)
+(* 6'. where the dump strings go inside srcURL                         *)
+(* ================================================================== *)
+(* a branch / tag component: the literal "master" or a url.QueryEscape output *)
+Definition tag_ok (t : bytes) : Prop := t = s2b "master" \/ exists x, t = query_escape x.
+Definition line_part (c : Call) : bytes := s2b "#L" ++ Z_to_dec (Line c).
+
+Lemma index_byte_firstn : forall s k i, index_byte s k = Some i -> ~ In k (firstn i s).
+Proof.
+  induction s as [|x s IH]; intros k i H; simpl in H; [discriminate|].
+  destruct (x =? k) eqn:E.
+  - injection H as <-. simpl. tauto.
+  - destruct (index_byte s k) as [j|] eqn:Ej; [|discriminate]. injection H as <-. simpl.
+    intros [Hx|Hin]; [apply N.eqb_neq in E; contradiction|]. exact (IH k j Ej Hin).
+Qed.
+
+Lemma in_firstn {A} (x : A) : forall n l, In x (firstn n l) -> In x l.
+Proof.
+  induction n as [|n IH]; intros [|y l] H; simpl in *; try contradiction.
+  destruct H as [H|H]; [now left|right; now apply IH].
+Qed.
+
+Lemma split_first_no_slash s a r : split_first s = (a, Some r) -> ~ In 47 a.
+Proof.
+  unfold split_first. destruct (index_byte s b_slash) as [i|] eqn:E; intros H; [|discriminate].
+  injection H as <- _. exact (index_byte_firstn s b_slash i E).
+Qed.
+
+Lemma split_tag_ok s p st t : split_tag s = (p, st, t) ->
+  tag_ok st /\ tag_ok t /\ (forall x, In x p -> In x s) /\ ~ In 64 p.
+Proof.
+  unfold split_tag. destruct (index_byte s 64) as [i|] eqn:E; intros H; injection H as <- <- <-.
+  - repeat split.
+    + right. eexists. reflexivity.
+    + right. eexists. reflexivity.
+    + intros x. apply in_firstn.
+    + exact (index_byte_firstn s 64 i E).
+  - repeat split; try (left; reflexivity); [tauto|].
+    clear -E. induction s as [|x s IH]; simpl in *; [tauto|].
+    destruct (x =? 64) eqn:Ex; [discriminate|]. destruct (index_byte s 64); [discriminate|].
+    intros [H|H]; [apply N.eqb_neq in Ex; contradiction|now apply IH].
+Qed.
+
+(* the SplitN(rest, "/", 3) of getSrcBranchURL *)
+Lemma three_inv (rest p0 p1 p2 : bytes) :
+  match split_first rest with
+  | (q0, Some r1) => match split_first r1 with
+                     | (q1, Some q2) => Some (q0, q1, q2)
+                     | _ => None
+                     end
+  | _ => None
+  end = Some (p0, p1, p2) ->
+  exists r1, split_first rest = (p0, Some r1) /\ split_first r1 = (p1, Some p2).
+Proof.
+  destruct (split_first rest) as [q0 [r1|]]; [|discriminate].
+  destruct (split_first r1) as [q1 [q2|]] eqn:E1; [|discriminate].
+  intros H. injection H as -> -> ->. now exists r1.
+Qed.
+
+Ltac repo_side :=
+  match goal with
+  | Ho : _ = Some (_, ?p1, _), Ht : split_tag ?p1 = (?p, ?st, _) |- tag_ok ?st /\ ~ In 47 ?p /\ ~ In 64 ?p =>
+      let r1 := fresh in let Ha := fresh in let Hs := fresh in
+      apply three_inv in Ho as [r1 [Ha Hs]];
+      let H1 := fresh in let H3 := fresh in let H4 := fresh in
+      destruct (split_tag_ok _ _ _ _ Ht) as [H1 [_ [H3 H4]]];
+      split; [exact H1|split; [|exact H4]];
+      let Hin := fresh in intro Hin; apply (split_first_no_slash _ _ _ Hs); apply H3; exact Hin
+  end.
+
+(* Every component taken from the dump goes through escape_path or query_escape,
+   EXCEPT the repository name [p] (splitTag's first result, formatted with %s):
+   it is a raw piece of the dump without '/' and '@'. *)
+Theorem src_url_shape : forall ver c,
+  src_url ver c = [] \/
+  (exists p, src_url ver c = pfx_file ++ escape_path p) \/
+  (exists x, src_url ver c =
+     s2b "https://github.com/golang/go/blob/" ++ query_escape x ++ s2b "/src/" ++ escape_path (RelSrcPath c) ++ line_part c) \/
+  (exists p0 p st p2,
+     src_url ver c = pfx_github ++ escape_path p0 ++ s2b "/" ++ p ++ s2b "/blob/" ++ st ++ s2b "/" ++ escape_path p2 ++ line_part c /\
+     tag_ok st /\ ~ In 47 p /\ ~ In 64 p) \/
+  (exists p st p2,
+     src_url ver c = s2b "https://github.com/golang/" ++ p ++ s2b "/blob/" ++ st ++ s2b "/" ++ escape_path p2 ++ line_part c /\
+     tag_ok st /\ ~ In 47 p /\ ~ In 64 p).
+Proof.
+  intros ver c. unfold src_url, get_src_branch_url, pfx_github, pfx_file, line_part.
+  repeat match goal with |- context [match ?x with _ => _ end] => destruct x eqn:? end;
+    cbn [fst];
+    first [ left; reflexivity
+          | right; left; eexists; reflexivity
+          | right; right; left; eexists; reflexivity
+          | right; right; right; left; do 4 eexists; split; [reflexivity|repo_side]
+          | right; right; right; right; do 3 eexists; split; [reflexivity|repo_side] ].
+Qed.
+
+(* ================================================================== *)
+(* combined statements for Properties/C17.v                            *)
+(* ================================================================== *)
+Theorem url_scheme : forall ver c,
+  (src_url ver c = [] \/ has_prefix (src_url ver c) (s2b "https://github.com/") = true \/
+   has_prefix (src_url ver c) (s2b "file:///") = true) /\
+  (pkg_url ver c = [] \/ has_prefix (pkg_url ver c) (s2b "https://golang.org/pkg/") = true \/
+   has_prefix (pkg_url ver c) (s2b "https://godoc.org/") = true \/
+   has_prefix (pkg_url ver c) (s2b "https://pkg.go.dev/") = true).
+Proof. intros ver c. split; [exact (src_url_scheme ver c)|exact (pkg_url_scheme ver c)]. Qed.
+
+Theorem normalize_prefix : forall x,
+  url_normalize (s2b "https://github.com/" ++ x) = s2b "https://github.com/" ++ url_normalize x /\
+  url_normalize (s2b "file:///" ++ x) = s2b "file:///" ++ url_normalize x /\
+  url_normalize (s2b "https://golang.org/pkg/" ++ x) = s2b "https://golang.org/pkg/" ++ url_normalize x /\
+  url_normalize (s2b "https://godoc.org/" ++ x) = s2b "https://godoc.org/" ++ url_normalize x /\
+  url_normalize (s2b "https://pkg.go.dev/" ++ x) = s2b "https://pkg.go.dev/" ++ url_normalize x.
+Proof.
+  intros x. split; [exact (normalize_github x)|]. split; [exact (normalize_file x)|].
+  split; [exact (normalize_golang x)|]. split; [exact (normalize_godoc x)|exact (normalize_pkgdev x)].
 Qed.
